@@ -1,0 +1,12 @@
+//go:build !verif
+
+package verifhook
+
+import "sync"
+
+// RWMutex is sync.RWMutex itself in ordinary builds; with the verif tag it is a wrapper whose
+// acquisitions are scheduling points of the simulation harness (lock_on.go).
+type RWMutex = sync.RWMutex
+
+// NameLock names a lock for the harness.
+func NameLock(m *RWMutex, name string) {}
